@@ -60,7 +60,9 @@ func RunC03(env *Env, job *C03Job) *C03Res {
 	res := &C03Res{}
 	ph := &Phase{Name: "setup"}
 	cfg := job.Cfg.Normalised()
-	pipe := fmt.Sprintf("comp=%s|level=%s|enc=%s|sig=%s", nzs(cfg.Compression), cfg.Level, nzs(cfg.Encryption), nzs(cfg.Signature))
+	// class keys name the pipeline without the level (the level is in the detail and in the coverage cells)
+	pipe := fmt.Sprintf("comp=%s|enc=%s|sig=%s", nzs(cfg.Compression), nzs(cfg.Encryption), nzs(cfg.Signature))
+	cell := fmt.Sprintf("comp=%s|level=%s|enc=%s|sig=%s", nzs(cfg.Compression), cfg.Level, nzs(cfg.Encryption), nzs(cfg.Signature))
 	viol := func(class, detail string) {
 		res.Viol = append(res.Viol, Violation{Prop: "C03", Class: class, Detail: detail})
 	}
@@ -84,7 +86,7 @@ func RunC03(env *Env, job *C03Job) *C03Res {
 			err, pan := Guard(func() error { return ops.ExecImpl(st, ops.Op{K: "put", P: p, C: spec}) })
 			vsync.Quiesce()
 			res.Evals++
-			res.Distinct = append(res.Distinct, fmt.Sprintf("%s|rs=%d|wc=%s|len=%s|fill=%c", pipe, cfg.RecordSize, cfg.WriteCache, lc, fillOf(spec)))
+			res.Distinct = append(res.Distinct, fmt.Sprintf("%s|rs=%d|wc=%s|len=%s|fill=%c", cell, cfg.RecordSize, cfg.WriteCache, lc, fillOf(spec)))
 			if pan != "" {
 				viol(fmt.Sprintf("C03|write-panic|%s|len=%s", pipe, lc), fmt.Sprintf("config %s, content %s: %s", cfg, spec, pan))
 				continue
